@@ -7,82 +7,6 @@ from ..index import norm
 from . import common
 
 
-def index_time(cls, m, e, depth=0):
-    """The time expression (text, in terms of m's parameters) a byte index was computed from by _getIndexAtTime,
-    following locals, tuple unpacking and private helpers of the same class; None if it is not such an index."""
-    if depth > 5 or e is None:
-        return None
-    if isinstance(e, ast.Call) and norm(e.func) == "self._getIndexAtTime" and e.args:
-        return norm(e.args[0])
-    if isinstance(e, ast.Name):
-        for n in ast.walk(m.node):
-            if isinstance(n, ast.Assign) and len(n.targets) == 1:
-                t = n.targets[0]
-                if isinstance(t, ast.Name) and t.id == e.id:
-                    return index_time(cls, m, n.value, depth + 1)
-                if isinstance(t, ast.Tuple):
-                    for k, el in enumerate(t.elts):
-                        if isinstance(el, ast.Name) and el.id == e.id:
-                            return _tuple_elt_time(cls, m, n.value, k, depth + 1)
-        return None
-    return None
-
-
-def _tuple_elt_time(cls, m, value, k, depth):
-    if isinstance(value, ast.Tuple) and k < len(value.elts):
-        return index_time(cls, m, value.elts[k], depth)
-    if isinstance(value, ast.Call) and isinstance(value.func, ast.Attribute) and norm(value.func.value) == "self":
-        h = cls.lookup(value.func.attr)
-        if h is None:
-            return None
-        rets = [n for n in ast.walk(h.node) if isinstance(n, ast.Return) and isinstance(n.value, ast.Tuple)]
-        if len(rets) != 1 or k >= len(rets[0].value.elts):
-            return None
-        t = index_time(cls, h, rets[0].value.elts[k], depth)
-        if t is None:
-            return None
-        # map the helper's parameter back to the call's argument
-        if t in h.params:
-            i = h.params.index(t)
-            if i < len(value.args):
-                return norm(value.args[i])
-            for kw in value.keywords:
-                if kw.arg == t:
-                    return norm(kw.value)
-            return None
-        return t
-    return None
-
-
-def strip_float(e):
-    """float(x) -> x (a no-op wrapper for this purpose)."""
-    while isinstance(e, ast.Call) and norm(e.func) == "float" and len(e.args) == 1:
-        e = e.args[0]
-    return e
-
-
-def factors(e):
-    e = strip_float(e)
-    if isinstance(e, ast.BinOp) and isinstance(e.op, ast.Mult):
-        return factors(e.left) + factors(e.right)
-    return [norm(e)]
-
-
-def is_sample_count(e, rate_names, time_names=None):
-    """round(<time> * <frame rate>) -- the nearest sample index / count for a time in seconds."""
-    e = strip_float(e)
-    if not (isinstance(e, ast.Call) and norm(e.func) == "round" and len(e.args) == 1):
-        return False, "not round(...)"
-    fs = factors(e.args[0])
-    rates = [f for f in fs if f in rate_names]
-    if len(rates) != 1:
-        return False, "round() of %s: exactly one frame-rate factor expected" % " * ".join(fs)
-    rest = [f for f in fs if f not in rate_names]
-    if len(rest) != 1:
-        return False, "round() of %s: a factor other than time and frame rate is inside the rounding" % " * ".join(fs)
-    return True, rest[0]
-
-
 def run(rep, tier):
     from . import audiobuf
 
@@ -115,245 +39,3 @@ def run(rep, tier):
         except (PyRaise, Undecided) as e:
             rep.undecided("F-file", qd.short, "QueryWav.duration", str(e))
 
-
-def run_syntactic(rep, tier):
-    idx = common.ctx()
-    rep.rule("F1-aligned", "every slice bound applied to Wav.frames is k*sampleWidth with k a rounded sample index (abstract value ALIGNED), computed by _getIndexAtTime only")
-    rep.rule("F1-nearest", "every time->sample conversion is round(time * frameRate) (nearest sample), with nothing else inside the rounding")
-    rep.rule("F2-partition", "deleteSegment = frames[:i] + frames[j:], insert = frames[:i] + new + frames[i:] with the same i, getFrames = frames[i:j], replaceSegment = deleteSegment ; insert at the same start, concatenate = +=")
-    rep.rule("F3-pack", "convertFromBytes / convertToBytes use the same width->code table and the same byte-order prefix")
-    rep.rule("F4-seek", "readFramesAtTime always positions the file (setpos) before it reads; duration formulas are bytes/width/rate and frames/rate")
-    rep.not_decided.append("what the wave module reads and writes (file round trip); banker's rounding at exact half samples")
-    audio = idx.module("audio")
-    wav = audio.classes.get("Wav")
-    if wav is None:
-        rep.vanished("F1-aligned", "audio.Wav", "class Wav")
-        return
-
-    # ---- _getIndexAtTime : ALIGNED
-    gi = wav.methods.get("_getIndexAtTime")
-    if gi is None:
-        rep.vanished("F1-aligned", "Wav._getIndexAtTime")
-        return
-    rep.functions.add(gi.qual)
-    rets = [n for n in ast.walk(gi.node) if isinstance(n, ast.Return)]
-    ok = False
-    why = "unexpected shape"
-    if len(rets) == 1 and isinstance(rets[0].value, ast.BinOp) and isinstance(rets[0].value.op, ast.Mult):
-        l, r = rets[0].value.left, rets[0].value.right
-        w = "self.sampleWidth"
-        cnt = r if norm(l) == w else (l if norm(r) == w else None)
-        if cnt is not None:
-            ok, why = is_sample_count(cnt, {"self.frameRate"})
-            if ok and why != gi.params[0]:
-                ok, why = False, "rounds %s, not the requested time" % why
-        else:
-            why = "not <rounded sample index> * self.sampleWidth"
-    elif len(rets) == 1:
-        why = "the byte index is %s: rounding happens after the multiplication by the sample width, so the index can fall inside a sample" % norm(rets[0].value)
-    rep.check(ok, "F1-aligned", gi.short, norm(rets[0].value) if rets else "return", ok="round(time * frameRate) * sampleWidth: a whole number of samples", bad=why, loc=gi.loc)
-
-    # ---- every slice of self.frames in Wav uses indices derived from _getIndexAtTime
-    nslices = 0
-    for m in wav.methods.values():
-        for n in ast.walk(m.node):
-            if isinstance(n, ast.Subscript) and norm(n.value) == "self.frames" and isinstance(n.slice, ast.Slice):
-                nslices += 1
-                rep.functions.add(m.qual)
-                bounds = [b for b in (n.slice.lower, n.slice.upper) if b is not None]
-                bad = [norm(b) for b in bounds if index_time(wav, m, b) is None and not (isinstance(b, ast.Constant) and b.value == 0) and norm(b) != "len(self.frames)"]
-                rep.check(not bad and n.slice.step is None, "F1-aligned", m.short, norm(n), ok="bounds come from _getIndexAtTime", bad="slice bound %s is not a whole-sample byte index from _getIndexAtTime" % bad, loc=m.where(n))
-    rep.floor("F1-aligned", 6, "_getIndexAtTime + 5 slices of self.frames")
-
-    # ---- F2 shapes (semantic: which time each slice bound comes from)
-    def prov(m, e):
-        """the time argument a slice bound was computed from, or None."""
-        return index_time(wav, m, e)
-
-    def frames_slice(m, e, depth=0):
-        """(lower provenance, upper provenance) of self.frames[lo:hi] or None."""
-        if isinstance(e, ast.Name) and depth < 4:
-            defs = [n.value for n in ast.walk(m.node) if isinstance(n, ast.Assign) and len(n.targets) == 1 and norm(n.targets[0]) == e.id]
-            if len(defs) == 1:
-                return frames_slice(m, defs[0], depth + 1)
-            return None
-        if isinstance(e, ast.Subscript) and norm(e.value) == "self.frames" and isinstance(e.slice, ast.Slice) and e.slice.step is None:
-            lo = prov(m, e.slice.lower) if e.slice.lower is not None else "START"
-            hi = prov(m, e.slice.upper) if e.slice.upper is not None else "END"
-            return (lo, hi)
-        return None
-
-    def frame_writes(m):
-        return [n for n in ast.walk(m.node) if isinstance(n, (ast.Assign, ast.AugAssign)) and any(norm(t) == "self.frames" for t in (n.targets if isinstance(n, ast.Assign) else [n.target]))]
-
-    def flat_add(e):
-        if isinstance(e, ast.BinOp) and isinstance(e.op, ast.Add):
-            return flat_add(e.left) + flat_add(e.right)
-        return [e]
-
-    def check_shape(name, verdict, expected):
-        m = wav.methods.get(name)
-        if m is None:
-            rep.vanished("F2-partition", "Wav." + name)
-            return
-        rep.functions.add(m.qual)
-        ok, got = verdict(m)
-        rep.check(ok, "F2-partition", m.short, got[:160], ok="slices partition the original frames; every other sample keeps its value and order",
-                  bad="%s is '%s'; expected %s" % (name, got, expected), loc=m.loc)
-
-    def v_delete(m):
-        w = frame_writes(m)
-        if len(w) != 1 or not isinstance(w[0], ast.Assign):
-            return False, "; ".join(norm(x) for x in w) or "no assignment to self.frames"
-        parts = flat_add(w[0].value)
-        sl = [frames_slice(m, p) for p in parts]
-        t0, t1 = m.params[0], m.params[1]
-        return sl == [("START", t0), (t1, "END")], norm(w[0])
-
-    def v_insert(m):
-        w = frame_writes(m)
-        if len(w) != 1 or not isinstance(w[0], ast.Assign):
-            return False, "; ".join(norm(x) for x in w) or "no assignment to self.frames"
-        parts = flat_add(w[0].value)
-        t0, new = m.params[0], m.params[1]
-        ok = len(parts) == 3 and frames_slice(m, parts[0]) == ("START", t0) and norm(parts[1]) == new and frames_slice(m, parts[2]) == (t0, "END")
-        return ok, norm(w[0])
-
-    def v_get(m):
-        r = [n for n in ast.walk(m.node) if isinstance(n, ast.Return)]
-        if len(r) != 1 or frame_writes(m):
-            return False, "; ".join(norm(x) for x in r)
-        return frames_slice(m, r[0].value) == (m.params[0], m.params[1]), norm(r[0])
-
-    def v_concat(m):
-        w = frame_writes(m)
-        if len(w) != 1:
-            return False, "; ".join(norm(x) for x in w)
-        x = w[0]
-        ok = (isinstance(x, ast.AugAssign) and isinstance(x.op, ast.Add) and norm(x.value) == m.params[0]) or (isinstance(x, ast.Assign) and norm(x.value) == "self.frames + " + m.params[0])
-        return ok, norm(x)
-
-    def v_replace(m):
-        calls = [n for n in ast.walk(m.node) if isinstance(n, ast.Call) and norm(n.func) in ("self.deleteSegment", "self.insert")]
-        calls.sort(key=lambda n: (n.lineno, n.col_offset))
-        t0, t1, new = m.params[0], m.params[1], m.params[2]
-        ok = [norm(c) for c in calls] == ["self.deleteSegment(%s, %s)" % (t0, t1), "self.insert(%s, %s)" % (t0, new)] and not frame_writes(m)
-        return ok, "; ".join(norm(c) for c in calls)
-
-    check_shape("deleteSegment", v_delete, "self.frames = self.frames[:index(startTime)] + self.frames[index(endTime):]")
-    check_shape("insert", v_insert, "self.frames = self.frames[:index(startTime)] + frames + self.frames[index(startTime):]")
-    check_shape("getFrames", v_get, "return self.frames[index(startTime):index(endTime)]")
-    check_shape("concatenate", v_concat, "self.frames += frames")
-    check_shape("replaceSegment", v_replace, "deleteSegment(startTime, endTime) then insert(startTime, frames)")
-    rep.floor("F2-partition", 5)
-
-    # ---- F3 pack / unpack
-    cf, ct = audio.functions.get("convertFromBytes"), audio.functions.get("convertToBytes")
-    if cf is None or ct is None:
-        rep.vanished("F3-pack", "audio.convertFromBytes/convertToBytes")
-    else:
-        def fmt_expr(fn, fname):
-            for n in ast.walk(fn.node):
-                if isinstance(n, ast.Call) and norm(n.func) == fname:
-                    return n
-            return None
-        u, p = fmt_expr(cf, "struct.unpack"), fmt_expr(ct, "struct.pack")
-        tab_f = [norm(n.value) for n in ast.walk(cf.node) if isinstance(n, ast.Assign) and norm(n.targets[0]) == "byteCode"]
-        tab_t = [norm(n.value) for n in ast.walk(ct.node) if isinstance(n, ast.Assign) and norm(n.targets[0]) == "byteCode"]
-        ok = u is not None and p is not None and tab_f == tab_t and len(tab_f) == 1 and "sampleWidthDict" in tab_f[0]
-        if ok:
-            # sibling agreement: (byte-order prefix, code variable, repeat count) of the two format expressions
-            def parts(e):
-                if isinstance(e, ast.BinOp) and isinstance(e.op, ast.Add) and isinstance(e.left, ast.Constant) and isinstance(e.right, ast.BinOp) and isinstance(e.right.op, ast.Mult):
-                    return e.left.value, norm(e.right.left), norm(e.right.right)
-                if isinstance(e, ast.JoinedStr) and len(e.values) == 2 and isinstance(e.values[0], ast.Constant) and isinstance(e.values[1], ast.FormattedValue):
-                    v = e.values[1].value
-                    if isinstance(v, ast.BinOp) and isinstance(v.op, ast.Mult) and e.values[1].format_spec is None:
-                        return e.values[0].value, norm(v.left), norm(v.right)
-                return None
-            pu, pp = parts(u.args[0]), parts(p.args[0])
-            ok = pu is not None and pp is not None and pu[0] == pp[0] and pu[1] == pp[1] == "byteCode"
-            if ok:
-                cnt = pu[2]
-                cdef = [norm(n.value) for n in ast.walk(cf.node) if isinstance(n, ast.Assign) and norm(n.targets[0]) == cnt] or [cnt]
-                ok = "len(byteStr)" in cdef[0] and "sampleWidth" in cdef[0] and "/" in cdef[0] and pp[2] == "len(numList)"
-                ok = ok and norm(p.args[1]) == "*numList" and norm(u.args[1]) == "byteStr"
-        rep.check(ok, "F3-pack", "audio.convertFromBytes/convertToBytes", (norm(u.args[0]) if u else "?") + " | " + (norm(p.args[0]) if p else "?"),
-                  ok="same byte-order prefix and width->code table on both sides, one code per sample (bytes/width codes when unpacking, len(samples) when packing)", bad="pack and unpack formats differ: converting samples to bytes and back is no longer the identity")
-        # the values packed / unpacked are the argument's, untransformed
-        for fn, par in ((ct, "numList"), (cf, "byteStr")):
-            rebinds = []
-            for n in ast.walk(fn.node):
-                tgts = n.targets if isinstance(n, ast.Assign) else [n.target] if isinstance(n, (ast.AugAssign, ast.AnnAssign)) else []
-                for t in tgts:
-                    if any(isinstance(x, ast.Name) and x.id == par for x in ast.walk(t)):
-                        v = getattr(n, "value", None)
-                        if not (isinstance(n, ast.Assign) and isinstance(v, ast.Call) and norm(v.func) in ("tuple", "list", "bytes") and len(v.args) == 1 and norm(v.args[0]) == par):
-                            rebinds.append(norm(n))
-            rep.check(par in fn.params and not rebinds, "F3-pack", fn.short, "%s reaches struct unchanged" % par, ok="the argument is packed/unpacked as given (never rebound to a transformed copy)",
-                      bad="the samples are transformed before conversion (%s): values are no longer carried over exactly" % "; ".join(rebinds)[:160])
-        tbl = audio.const_nodes.get("sampleWidthDict")
-        rep.check(tbl is not None and norm(tbl) == "{1: 'b', 2: 'h', 4: 'i', 8: 'q'}", "F3-pack", "audio.sampleWidthDict", norm(tbl) if tbl is not None else "?",
-                  ok="struct codes have exactly the stated byte widths (b=1, h=2, i=4, q=8)", bad="width->struct code table changed: a code whose size differs from the sample width misaligns every sample")
-    rep.floor("F3-pack", 4)
-
-    rule_nearest(rep)
-    rule_seek(rep)
-    d = wav.methods.get("duration")
-    if d is not None:
-        r = [n for n in ast.walk(d.node) if isinstance(n, ast.Return)]
-        rep.check(len(r) == 1 and norm(r[0].value) in ("len(self.frames) / self.frameRate / self.sampleWidth", "len(self.frames) / self.sampleWidth / self.frameRate", "len(self.frames) / (self.frameRate * self.sampleWidth)", "len(self.frames) / (self.sampleWidth * self.frameRate)"),
-                  "F4-seek", d.short, norm(r[0].value) if r else "?", ok="bytes / width / rate = sample count / frame rate", bad="Wav.duration is not sample count / frame rate")
-    q = audio.classes.get("QueryWav")
-    if q is not None and "duration" in q.methods:
-        qd = q.methods["duration"]
-        txt = " ".join(norm(s) for s in qd.node.body)
-        rep.check("float(self.nframes) / self.frameRate" in txt or "self.nframes / self.frameRate" in txt, "F4-seek", qd.short, txt[:80], ok="frames / rate", bad="QueryWav.duration is not nframes / frameRate")
-    rep.floor("F4-seek", 4)
-
-
-
-
-def rule_nearest(rep):
-    """F1-nearest: every time->sample conversion in audio.py is round(time * frameRate)."""
-    idx = common.ctx()
-    audio = idx.module("audio")
-    # ---- F1-nearest: every time->sample conversion in the module
-    sites = []
-    for fn in list(audio.functions.values()) + [m for c in audio.classes.values() for m in c.methods.values()]:
-        for n in ast.walk(fn.node):
-            if isinstance(n, ast.Call) and norm(n.func) in ("round", "int", "math.floor", "math.ceil") and n.args:
-                fs = factors(n.args[0])
-                if any(f in ("frameRate", "self.frameRate") for f in fs) and fn.name not in ("generateSineWave",) or (fn.name == "generateSineWave" and "duration" in " ".join(fs)):
-                    sites.append((fn, n))
-    for fn, n in sites:
-        rep.functions.add(fn.qual)
-        ok, why = is_sample_count(n, {"frameRate", "self.frameRate"})
-        rep.check(ok, "F1-nearest", fn.short, norm(n), ok="nearest sample to %s" % why, bad="time->sample conversion %s is not round(time * frameRate): %s (a time on sample k whose product is k-epsilon in floating point lands on sample k-1)" % (norm(n), why), loc=fn.where(n))
-    rep.floor("F1-nearest", 5, "_getIndexAtTime, readFramesAtTime x2, generateSineWave, generateSilence")
-
-
-
-def rule_seek(rep):
-    """F4-seek: readFramesAtTime positions the file unconditionally before reading."""
-    idx = common.ctx()
-    audio = idx.module("audio")
-    # ---- F4: readFramesAtTime always seeks, durations
-    rf = audio.functions.get("readFramesAtTime")
-    if rf is None:
-        rep.vanished("F4-seek", "audio.readFramesAtTime")
-    else:
-        rep.functions.add(rf.qual)
-        top = [s for s in rf.node.body]
-        seek = [i for i, s in enumerate(top) if isinstance(s, ast.Expr) and isinstance(s.value, ast.Call) and norm(s.value.func).endswith(".setpos")]
-        read = [i for i, s in enumerate(top) if any(isinstance(n, ast.Call) and norm(n.func).endswith(".readframes") for n in ast.walk(s))]
-        anyseek = [n for n in ast.walk(rf.node) if isinstance(n, ast.Call) and norm(n.func).endswith(".setpos")]
-        ok = len(seek) == 1 and len(read) == 1 and seek[0] < read[0] and len(anyseek) == 1
-        rep.check(ok, "F4-seek", rf.short, "setpos ... readframes", ok="setpos is an unconditional statement that precedes readframes", bad="the file is not always positioned before reading (setpos is conditional, missing or after the read): a second query on the same handle continues from where the previous one stopped", loc=rf.loc)
-        if anyseek:
-            arg = anyseek[0].args[0]
-            if isinstance(arg, ast.Name):
-                from ..textfmt import single_def
-                arg = single_def(rf, arg.id) or arg
-            ok, why = is_sample_count(arg, {"frameRate"})
-            rep.check(ok and why == "startTime", "F4-seek", rf.short, "setpos(%s)" % norm(arg), ok="seeks to the sample nearest to startTime", bad="seek position is not round(frameRate * startTime): %s" % why)
